@@ -471,5 +471,5 @@ PARTS = {
                       "256^k and of 2^63, int64 overflow edges, shrinking sums, extra bytes after the slot; "
                       "non-trivial = amount != 0 or width changes or overflow"),
                 generate=generate_C12, oracles={"ext_add": o_add},
-                classify=classify, search=search, assumptions=ASSUME, configs_quick=["pinned", "O0"]),
+                classify=classify, search=search, assumptions=ASSUME, configs_quick=["pinned", "O0", "clang"]),
 }
